@@ -47,6 +47,14 @@ MUTANTS = {
  "M10-class-off-by-one": ("memory.go",
    "\t\t\tif size <= int(v) {\n", "\t\t\tif size <= int(v)+1 {\n",
    "size-class lookup admits a request one byte larger than the slot"),
+ "M11-free-no-backlink": ("free.go",
+   "\t\t\t(*node)(unsafe.Pointer(p)).next = next\n\t\t\t(*node)(unsafe.Pointer(next)).prev = p\n",
+   "\t\t\t(*node)(unsafe.Pointer(p)).next = next\n",
+   "Free does not set the back link of the old head of the global free list"),
+ "M12-malloc-stale-prev": ("malloc.go",
+   "\ta.lists[class] = (*node)(unsafe.Pointer(n)).next\n\tif next := (*node)(unsafe.Pointer(n)).next; next != 0 {\n\t\t(*node)(unsafe.Pointer(next)).prev = 0\n\t}\n",
+   "\ta.lists[class] = (*node)(unsafe.Pointer(n)).next\n",
+   "Malloc from the free list leaves a stale back link in the new list head"),
 }
 
 def run(name, seed):
@@ -86,7 +94,10 @@ def run(name, seed):
         detail = "; ".join("%s x%d e.g. %s" % (t, len(m), m[0]) for t, m in sorted(fails.items()))
         return name, "%s (%.0fs) %s" % (verdict, time.time() - t0, what), detail
     finally:
-        shutil.rmtree(tmp, ignore_errors=True)
+        if os.environ.get("KEEP"):
+            print("kept", tmp)
+        else:
+            shutil.rmtree(tmp, ignore_errors=True)
 
 if __name__ == "__main__":
     seed = int(os.environ.get("VERIF_SEED", "1"))
